@@ -5,6 +5,8 @@ Decided (for all durations and all unit subsets, by the structure of the cascade
  RF-cascade   precalc: after taking the absolute value of the total seconds, the unit blocks come in strictly decreasing unit
               order, each block divides and reduces by the same constant, the seconds slot receives the whole rest: so the
               printed components recombine to the total truncated toward zero
+ RF-cons      sign and leap second correction: on every path that fills the seconds slot, sign * (components * units + seconds) equals
+              days*86400 + seconds + correction as a polynomial identity (the correction loses its sign with the total)
  RF-range     for each of the 16 combinations of week / day / hour / minute being requested, every refined component is
               non-negative and below (next coarser requested unit / own unit) -- interval analysis partitioned by the flags
  RF-unit      sibling agreement between the three places that know a unit: the specifier sets flag F (determine_durfmt), the
@@ -376,6 +378,74 @@ def check_widen(P, R):
     R.floor(rule, "day-count products", n, 6)
 
 
+def check_conservation(P, R, tu, blocks):
+    """sign and leap second correction: on every path of precalc that fills the seconds slot,
+         (1 - 2*neg) * (sum of component * unit + seconds slot)  ==  days * 86400 + seconds + correction
+    as a polynomial identity (neg = [total < 0]; the summary is path complete over the request flags)"""
+    rule = "RF-cons"
+    import conserve
+    from conserve import Poly, Summariser, Path, neg_sym
+    fn = tu.func("precalc")
+    sm = Summariser(fn)
+    sm.lenient_if = True
+    sm.maxpaths = 2048
+    sm.pure_calls = {"__strf_tot_secs", "__strf_tot_days", "__strf_tot_corr"}
+    body = kids(fn.body)
+    start = [i for i, s_ in enumerate(body) if s_.get("k") == "ForStmt"]
+    if not start:
+        raise AnalysisBroken("%s: the block that forms the total in precalc was not recognised" % rule)
+    stmts = [s_ for s_ in body[:start[0]] if s_.get("k") == "DeclStmt"] + body[start[0]:]
+    try:
+        paths = [p_ for p_ in sm.run(stmts, [Path()]) if p_.done]
+    except AnalysisBroken as e:
+        raise AnalysisBroken("%s: %s" % (rule, e))
+    units = {field: dv for flag, field, dv, md, node in blocks}
+    res = [x["d"] for x in fn.walk() if x.get("k") == "Var" and x.get("n") == "res"]
+    if not res:
+        raise AnalysisBroken("%s: result record not found" % rule)
+    res = res[0]
+    secs_field = [field for flag, field, dv, md, node in blocks if dv == 1]
+    if not secs_field:
+        raise AnalysisBroken("%s: seconds slot not found" % rule)
+    secs_field = secs_field[0]
+    secs_if = [node.get("i") for flag, field, dv, md, node in blocks if dv == 1][0]
+    U = Poly.sym(("call", "__strf_tot_days", ("dur",))) * Poly.const(86400) + Poly.sym(("call", "__strf_tot_secs", ("dur",)))
+    C = Poly.sym(("call", "__strf_tot_corr", ("dur",)))
+    B = neg_sym(U)
+    sign = Poly.const(1) - B * Poly.const(2)
+    n = good = 0
+    bad = None
+    for p_ in paths:
+        r = p_.ret
+        if not isinstance(r, dict) or secs_field not in r or (secs_if, 1) not in getattr(p_, "taken", []):
+            continue          # the seconds slot was not requested on this path: the rest is dropped (truncation)
+        # zero-initialised record: members never written read as 0
+        total = Poly()
+        for field, unit in units.items():
+            v = r.get(field)
+            if v is None:
+                continue
+            for sy in list(v.symbols()):
+                if isinstance(sy, tuple) and sy[0] == "in" and isinstance(sy[1], tuple) and sy[1][0] == res:
+                    v = v.subst(sy, Poly())
+            total = total + v * Poly.const(unit)
+        n += 1
+        diff = sign * total - (U + C)
+        if not diff:
+            good += 1
+        elif bad is None:
+            bad = diff
+    if n == 0:
+        raise AnalysisBroken("%s: no path of precalc fills the seconds slot" % rule)
+    if good == n:
+        R.ob(rule, "precalc: sign * (components * units + seconds slot) == days*86400 + seconds + correction on all %d paths with a seconds slot" % n, True)
+    else:
+        R.finding(rule, fn, "signed total", "on %d of %d paths that fill the seconds slot the signed recombination of the components "
+                  "differs from days*86400 + seconds + correction by %s: the leap second correction (or a component) enters with "
+                  "the wrong sign for negative durations" % (n - good, n, bad.text(sm.names)[:260]))
+    R.floor(rule, "paths with a seconds slot", n, 8)
+
+
 def check_handshake(P, R):
     """the day borrow of dt_ddiff: when the time-of-day difference has the other sign than the date difference, one day is taken
     from the date part (under a flag) and dt_dtdiff credits 86400 s to the time part if the flag comes back in res.fix.  In every
@@ -452,6 +522,7 @@ def check(P, R, tier):
     tu = P.tu("ddiff-ddiff.o")
     us, blocks = check_cascade(P, R, tu)
     check_ranges(P, R, tu, us, blocks)
+    check_conservation(P, R, tu, blocks)
     check_units(P, R, tu, blocks)
     check_readonly(P, R, tu)
     check_widen(P, R)
